@@ -101,6 +101,8 @@ type World struct {
 	lastBatch    [][]byte        // what the last operation handed over, if it was a reap
 	relBefore    int             // len(released) before the last operation, if that was a production step (-1 otherwise)
 	dupHanded    map[string]bool // handed over twice by ONE hand-off: the mempool response held the bytes twice
+	handOffs     map[string]int  // number of hand-offs (acknowledged SubmitBatchTxs calls) that contained the transaction
+	copiesInOne  map[string]int  // copies of it in the (last) hand-off that contained it
 	dupExcused   map[string]bool // a crash fell between the queue write of its hand-off and its seen-mark: may be handed over again
 	fromAtCrash  int
 	acked        [][]byte          // what SubmitBatchTxs acknowledged during the current reap
@@ -242,6 +244,7 @@ func Run(c *hx.Ctx) {
 			w.handed, w.crashed, w.cause, w.released = nil, false, "", nil
 			w.lossCause = map[string]string{}
 			w.dupHanded, w.dupExcused, w.notHanded = map[string]bool{}, map[string]bool{}, map[string]string{}
+			w.handOffs, w.copiesInOne = map[string]int{}, map[string]int{}
 			w.lastBatch, w.relBefore = nil, -1
 			w.armed, w.seenFail, w.faultExcused = "", 0, map[string]bool{}
 			w.exec = &hx.Exec{}
@@ -294,6 +297,10 @@ func Run(c *hx.Ctx) {
 				w.handed = append(w.handed, tx)
 				w.lastBatch = append(w.lastBatch, tx)
 				delete(w.notHanded, string(tx))
+				if ackedN[string(tx)] == 1 {
+					w.handOffs[string(tx)]++
+				}
+				w.copiesInOne[string(tx)] = ackedN[string(tx)]
 				if ackedN[string(tx)] > 1 {
 					w.dupHanded[string(tx)] = true // the response holds the bytes twice: both copies are handed over
 				}
@@ -376,9 +383,18 @@ func Run(c *hx.Ctx) {
 				cause = "after-production-step-with-equal-timestamp"
 			case w.clock == "back":
 				c.Hit("produce-clock-back")
-				cause = "batch-dropped-on-timestamp-regression"
 			}
-			w.clock = ""
+			// the recorded regression drop: THIS step answered with the time error, and what is missing is the batch the
+			// sequencer released in THIS step - nothing else is explained by it
+			var regressed map[string]bool
+			if cls == "err:time" {
+				regressed = map[string]bool{}
+				for _, b := range w.released[w.relBefore:] {
+					for _, tx := range b {
+						regressed[string(tx)] = true
+					}
+				}
+			}
 			faulted := (armed == "qdel" && e.DS.FailDelete == 0) || (armed == "blk" && e.DS.FailCommit == 0)
 			if armed == "blk" && e.DS.FailCommit == 0 {
 				w.mustRestart = true // "failed to save block": the error ends the aggregation loop and the node
@@ -394,7 +410,12 @@ func Run(c *hx.Ctx) {
 					}
 				}
 			}
-			w.track(cause, nil)
+			if regressed != nil && w.clock == "back" {
+				w.trackElse("batch-dropped-on-timestamp-regression", regressed, "other")
+			} else {
+				w.track(cause, nil)
+			}
+			w.clock = ""
 		case "restart", "crash":
 			e := w.env
 			n := e.DS.NumWrites()
@@ -541,15 +562,32 @@ func (w *World) checkConservation() {
 	// offered and handed over again: allowed by the property); the check stays armed for every other transaction
 	count := map[string]int{}
 	for _, tx := range chain {
+		count[string(tx)]++
+	}
+	inOneBlock := map[string]int{} // most copies of the transaction in a single block
+	for k := uint64(1); k <= e.Height(); k++ {
+		if _, d, err := e.Store.GetBlockData(context.Background(), k); err == nil {
+			n := map[string]int{}
+			for _, tx := range d.Txs {
+				n[string(tx)]++
+				if n[string(tx)] > inOneBlock[string(tx)] {
+					inOneBlock[string(tx)] = n[string(tx)]
+				}
+			}
+		}
+	}
+	for _, tx := range chain {
 		k := string(tx)
-		count[k]++
-		if count[k] != 2 || w.dupExcused[k] || w.faultExcused[k] {
+		if count[k] < 2 || w.dupExcused[k] || w.faultExcused[k] {
 			continue
 		}
-		if w.dupHanded[k] {
+		// the recorded finding explains a duplicate inclusion only when ONE GetTxs response held the bytes that often, the
+		// response was handed over as ONE batch, nothing else ever handed them over, and all copies sit in ONE block
+		if w.dupHanded[k] && w.handOffs[k] == 1 && w.copiesInOne[k] == count[k] && inOneBlock[k] == count[k] {
 			report("C11/twice/same-bytes-twice-in-one-mempool-response", fmt.Sprintf("transaction %s is included twice", hx.Hex(tx)))
 		} else {
-			report("C11/twice/other", fmt.Sprintf("transaction %s is included twice", hx.Hex(tx)))
+			report("C11/twice/other", fmt.Sprintf("transaction %s is included %d times (handed over by %d hand-offs, %d copies in one of them, at most %d copies in one block)",
+				hx.Hex(tx), count[k], w.handOffs[k], w.copiesInOne[k], inOneBlock[k]))
 		}
 	}
 	// batches are included in the order the sequencing layer released them: the non-empty blocks of the chain,
@@ -646,6 +684,11 @@ func decodeBatch(v []byte) [][]byte {
 // (a committed block, the block waiting at height+1, or the queue again); the first operation after which it is not
 // names the cause of the loss that checkConservation reports when the transaction never reaches a block.
 func (w *World) track(cause string, inflight map[string]bool) {
+	w.trackElse(cause, inflight, cause+"/not-the-batch-in-flight")
+}
+
+// trackElse: like track; a transaction outside `inflight` (when given) that is nowhere durable gets `elseCause`
+func (w *World) trackElse(cause string, inflight map[string]bool, elseCause string) {
 	if w.dead || w.env == nil {
 		return
 	}
@@ -657,8 +700,8 @@ func (w *World) track(cause string, inflight map[string]bool) {
 		} else if _, ok := w.lossCause[k]; !ok {
 			c := cause
 			if inflight != nil && !inflight[k] {
-				// a crash explains the loss of the batch that was in flight, of nothing else
-				c += "/not-the-batch-in-flight"
+				// a crash / a time error explains the loss of the batch that was in flight, of nothing else
+				c = elseCause
 			}
 			w.lossCause[k] = c
 		}
